@@ -156,7 +156,7 @@ def cfgOfSource : Config :=
   { ioFlagMask := Gen.EvLoop.ioFlagMask, timersPop := Gen.EvLoop.timersPop, errnoSaved := Gen.EvLoop.errnoSaved,
     pendingInit := Gen.EvLoop.pendingInit, reventsCleared := Gen.EvLoop.reventsCleared,
     invokeTypeSaved := Gen.EvLoop.invokeTypeSaved, sigSnapshot := Gen.EvLoop.sigSnapshot,
-    procSnapshot := Gen.EvLoop.procSnapshot }
+    procSnapshot := Gen.EvLoop.procSnapshot, laterCancelMarks := Gen.EvLoop.laterCancelMarks }
 
 def step (d : DSt) (ts : List String) (impl : String) : DSt × String × String :=
   let wop := parseWOp ts
